@@ -103,6 +103,7 @@ type FuncCtx struct {
 	relock         func(env *Env)
 	specDepth      int
 	cerrs          []string
+	guardObls      []*Obligation
 	escDone        bool
 	escCaps        []capturedVar
 }
@@ -500,6 +501,20 @@ func (f *FuncCtx) obligeSat(name, kind string, env *Env, cond string, text strin
 	return o
 }
 
+// obligeCallCover records the vacuity guard of a contract call: the state after assuming the callee's postconditions must
+// be satisfiable whenever the state just before the call was.
+func (f *FuncCtx) obligeCallCover(name string, pre, post *Env, text string) {
+	if f.C == nil || pre == nil || post == nil || pre.dead || post.dead {
+		return
+	}
+	g := &Obligation{Name: f.key + "/" + name + ".pre", Kind: "call-cover", Fn: f.key, Pkg: f.Pkg.PkgPath, Text: text, ExpectSat: true, Props: f.C.Props}
+	g.Query = f.buildQuery(pre.pc, "true", true)
+	f.guardObls = append(f.guardObls, g)
+	o := &Obligation{Name: f.key + "/" + name, Kind: "call-cover", Fn: f.key, Pkg: f.Pkg.PkgPath, Text: text, ExpectSat: true, Props: f.C.Props, Guard: g}
+	o.Query = f.buildQuery(post.pc, "true", true)
+	f.obls = append(f.obls, o)
+}
+
 func (f *FuncCtx) buildQuery(pc, goal string, positive bool) string {
 	// sort declarations are emitted lazily; remember the cut into the path lines
 	f.pendingQueries = append(f.pendingQueries, pendingQ{len(f.lines), pc, goal, positive})
@@ -515,7 +530,7 @@ type pendingQ struct {
 // finalize materialises queries once all sort declarations are known.
 func (f *FuncCtx) finalize() {
 	decls := strings.Join(f.S.Decls(), "\n")
-	for _, o := range f.obls {
+	for _, o := range append(append([]*Obligation{}, f.obls...), f.guardObls...) {
 		if !strings.HasPrefix(o.Query, "\x00") {
 			continue
 		}
